@@ -108,6 +108,24 @@ func checkC07(c *Ctx) {
 
 	// ---- R3 shared state
 	checkSharedState(c, pkgs)
+
+	// sort keys: packages are told apart by import path wherever they are compared or used as keys
+	// (a comparator on the short name ties same-named packages and leaves them in map order)
+	for _, pk := range pkgs {
+		if pk.Name == "codescan" {
+			checkPackageIdentity(c, "C07.R1.package-keys", pk)
+		}
+	}
+	// output files are opened truncated: the report is a function of the inputs, not of what the
+	// destination file held before
+	c.Rule("C07.R3.output-files", "every file opened for writing with O_CREATE (outside append/exclusive mode) is truncated", 1)
+	nOpen := 0
+	for _, pk := range pkgs {
+		nOpen += checkOpenTruncates(c, "C07.R3.output-files", pk, nil, 0)
+	}
+	if nOpen == 0 {
+		c.Unk("C07.R3.output-files", "os.OpenFile for output", "", "no output open found (anchor: commands.DiffCommand.Execute)")
+	}
 }
 
 // checkDirectTaintedUses: calls to functions returning map-ordered slices whose result is not
@@ -211,6 +229,7 @@ func ambientControl() int {
 	src := `package p
 import ("time"; "math/rand")
 func f() (int64, int) { return time.Now().Unix(), rand.Intn(3) }`
+	// (the detector is a callee-name predicate; os.TempDir is matched the same way)
 	fset := token.NewFileSet()
 	f, err := parser.ParseFile(fset, "control.go", src, 0)
 	if err != nil {
